@@ -25,6 +25,7 @@ class QuaToSM(ConvertBase):
             dict(offset="offset", column="column", length="length"),
         )
         sm.bpms = cls.cast(qua.bpms, SMBpmList, dict(offset="offset", bpm="bpm"))
+        sm.description = qua.difficulty_name
         sm.chart_type = SMMapChartTypes.get_type(qua.stack().column.max() + 1)
 
         sms = SMMapSet()
